@@ -182,10 +182,18 @@ def run_items(mod, ctx, items, deadline=None):
             ctx.extra["items_skipped_deadline"] += 1
             continue
         ctx.item = it
+        pytest_item = isinstance(it, list) and it and it[0] in ("pytest-tier", "pytest")
         if have_alarm:
-            signal.setitimer(signal.ITIMER_REAL, budget)
+            signal.setitimer(signal.ITIMER_REAL, 2400 if pytest_item else budget)
         try:
-            mod.run_item(ctx, it)
+            if pytest_item:
+                # the repository's own tests under this property's monitors (a violation found there
+                # is replayed by running that one test again: item ["pytest", nodeid])
+                from . import pytest_tier
+                pytest_tier.run(ctx, mod.__name__.rsplit(".", 1)[-1], timeout=2100,
+                                select=[it[1]] if it[0] == "pytest" and len(it) > 1 else None)
+            else:
+                mod.run_item(ctx, it)
         except PartituraRaised as pr:
             ctx.raised(pr)
         except ItemTimeout:
